@@ -405,9 +405,31 @@ func ClearRulesOfResource(res string) error {
 }
 
 // BuildResourceCircuitBreaker builds CircuitBreaker slice from rules. the resource of rules must be equals to res
+// statReuseIndexFor returns the index of the first old circuit breaker whose statistic can be reused for r,
+// skipping the breakers that an unchanged rule further down the list is going to keep; -1 if there is none.
+func statReuseIndexFor(r *Rule, oldResCbs []CircuitBreaker, laterRules []*Rule) int {
+	for idx, oldCb := range oldResCbs {
+		oldRule := oldCb.BoundRule()
+		if !oldRule.isStatReusable(r) {
+			continue
+		}
+		kept := false
+		for _, later := range laterRules {
+			if oldRule.isEqualsTo(later) {
+				kept = true
+				break
+			}
+		}
+		if !kept {
+			return idx
+		}
+	}
+	return -1
+}
+
 func BuildResourceCircuitBreaker(res string, rulesOfRes []*Rule, oldResCbs []CircuitBreaker) []CircuitBreaker {
 	newCbsOfRes := make([]CircuitBreaker, 0, len(rulesOfRes))
-	for _, r := range rulesOfRes {
+	for i, r := range rulesOfRes {
 		if res != r.Resource {
 			logging.Error(errors.Errorf("unmatched resource name expect: %s, actual: %s", res, r.Resource), "Unmatched resource name in circuitBreaker.BuildResourceCircuitBreaker()", "rule", r)
 			continue
@@ -429,6 +451,8 @@ func BuildResourceCircuitBreaker(res string, rulesOfRes []*Rule, oldResCbs []Cir
 			logging.Warn("[CircuitBreaker BuildResourceCircuitBreaker] Ignoring the rule due to unsupported circuit breaking strategy", "rule", r)
 			continue
 		}
+		// the breaker of an unchanged rule keeps its state: its statistic is not handed to another rule
+		reuseStatIdx = statReuseIndexFor(r, oldResCbs, rulesOfRes[i+1:])
 
 		var cb CircuitBreaker
 		var e error
